@@ -105,7 +105,7 @@ def check(pid, tier='quick', seed=0):
     # engine F: a static must-alias is reported as a violation only when the native snapshot monitor confirms it
     # (the analysis does not know which values are immutable); otherwise it is undecided and the monitor decides
     for v in list(refuted):
-        if v.engine == 'F' and not any(v.fn.split('.')[-1] in json.dumps(f) for f in bfail):
+        if (v.engine == 'F' or 'needs native confirmation' in str(v.detail)) and not any(v.fn.split('.')[-1] in json.dumps(f) for f in bfail):
             v.status = 'undecided'; v.detail = 'static must-alias not confirmed natively: ' + str(v.detail)
             refuted.remove(v); undecided.append(v)
     # ---- refuted deductive obligations -> violations (with replay where a failing input exists)
